@@ -525,7 +525,8 @@ def commandObs (st : St) (c : Cmd) : St × Verdict :=
     let st := { st with mergeMemo := st.mergeMemo.insert memoKey (m, maps) }
     -- files of the frozen corpus were MERGED by the pinned release, i.e. before fix D11
     let m := if st.pinned then pinnedDv segs maps m else m
-    let okStr := s!"ok maps={if m.numDocs = 0 then "nil" else mapsStr maps} szeq=1"
+    -- files of the frozen corpus aside (never re-merged), a merge hands back its maps also when nothing survives (D15)
+    let okStr := s!"ok maps={mapsStr maps} szeq=1"
     let st' := { st with files := st.files.insert (c.arg 0) m, fileBatch := st.fileBatch.erase (c.arg 0),
                          d3 := if m.numDocs = 0 ∧ (mergedFieldNames segs).length ≥ 2 then st.d3.insert (c.arg 0) true else st.d3 }
     let cl := c.getD "close" "never"
